@@ -1,15 +1,69 @@
 package main
 
 import (
+	"encoding/hex"
+	"encoding/json"
 	"fmt"
+	"strconv"
 	"strings"
 
+	"github.com/github/git-sizer/counts"
 	"github.com/github/git-sizer/git"
+	"github.com/github/git-sizer/sizes"
 )
+
+func hist(nums []string) sizes.HistorySize {
+	n := func(i int) uint64 { return u64(nums[i]) }
+	c32 := func(i int) counts.Count32 { return counts.Count32(n(i)) }
+	c64 := func(i int) counts.Count64 { return counts.Count64(n(i)) }
+	return sizes.HistorySize{
+		UniqueCommitCount: c32(0), UniqueCommitSize: c64(1), MaxCommitSize: c32(2), MaxHistoryDepth: c32(3),
+		MaxParentCount: c32(4), UniqueTreeCount: c32(5), UniqueTreeSize: c64(6), UniqueTreeEntries: c64(7),
+		MaxTreeEntries: c32(8), UniqueBlobCount: c32(9), UniqueBlobSize: c64(10), MaxBlobSize: c32(11),
+		UniqueTagCount: c32(12), MaxTagDepth: c32(13), ReferenceCount: c32(14),
+		MaxPathDepth: c32(15), MaxPathLength: c32(16), MaxExpandedTreeCount: c32(17), MaxExpandedBlobCount: c32(18),
+		MaxExpandedBlobSize: c64(19), MaxExpandedLinkCount: c32(20), MaxExpandedSubmoduleCount: c32(21),
+		ReferenceGroups: map[sizes.RefGroupSymbol]*counts.Count32{},
+	}
+}
 
 // handleMore holds the commands added for the later properties.
 func handleMore(cmd string, a []string) (string, bool) {
 	switch cmd {
+	case "table":
+		// table <threshold> <namestyle> <22 nums comma separated> <groups sym=name=count,...|->
+		var thr sizes.Threshold
+		if err := thr.Set(a[0]); err != nil {
+			return "ERR threshold", true
+		}
+		var ns sizes.NameStyle
+		if err := ns.Set(a[1]); err != nil {
+			return "ERR namestyle", true
+		}
+		h := hist(strings.Split(a[2], ","))
+		var groups []sizes.RefGroup
+		if a[3] != "-" {
+			for _, g := range strings.Split(a[3], ",") {
+				f := strings.Split(g, "=")
+				sym := sizes.RefGroupSymbol(arg(f[0]))
+				groups = append(groups, sizes.RefGroup{Symbol: sym, Name: string(arg(f[1]))})
+				if f[2] != "x" {
+					c := counts.Count32(u64(f[2]))
+					h.ReferenceGroups[sym] = &c
+				}
+			}
+		}
+		tbl := h.TableString(groups, thr, ns)
+		j2, err := h.JSON(groups, thr, ns)
+		if err != nil {
+			return "ERR json2", true
+		}
+		j1, err := json.MarshalIndent(h, "", "    ")
+		if err != nil {
+			return "ERR json1", true
+		}
+		return fmt.Sprintf("T:%s J2:%s J1:%s F:%s", hx([]byte(tbl)), hex.EncodeToString(j2), hex.EncodeToString(j1),
+			strconv.FormatFloat(float64(thr), 'g', -1, 64)), true
 	case "getconfig":
 		// getconfig <repo path hex> <prefix hex>
 		repo, err := git.NewRepositoryFromPath(string(arg(a[0])))
